@@ -254,6 +254,58 @@ def subPass (cfg : Cfg) (P : Store) (now now1 : Tick) (exec : Id → Nat → Out
     outcome := { final := d, error := !d, subrefs := keys,
                  delay := if d then none else minDelay (delays r.st (known cfg).eraseDups now1) } }
 
+/-! ### A pass together with the sub-passes of its parents (one level)
+
+`cycle` treats what a handler yields as given (`exec`). For a parent that runs sub-handlers the outcome is
+produced by `subPass`, which reads the children's records from the SAME body `P` (not from the patch) and
+writes their records into the SAME patch, after the top-level purge of a superseded cause and before the
+top-level store and the closing purge. `cycle2` composes the two on one store. -/
+
+/-- The sub-handlers a parent registers when its function runs in this pass (`kopf.execute(fns=…)`;
+    `[]` = the parent runs no children this time), and their limits. -/
+structure SubReg where
+  children : Id → List Id
+  limits : Id → Limits
+
+def subCfgOf (cfg : Cfg) (sub : SubReg) (p : Id) : Cfg :=
+  { owned := sub.children p, selected := sub.children p, limits := sub.limits,
+    reason := cfg.reason, lifecycle := cfg.lifecycle }
+
+/-- what invoking top-level handler `i` yields: its own outcome, or its sub-pass's -/
+def execTop (cfg : Cfg) (sub : SubReg) (P : Store) (now : Tick) (execLeaf : Id → Nat → Outcome) : Id → Nat → Outcome :=
+  fun i n => if (sub.children i).isEmpty then execLeaf i n
+             else (subPass (subCfgOf cfg sub i) P now now execLeaf).outcome
+
+/-- the children's records written by the sub-passes of the parents invoked in this pass, over `base` -/
+def subWrites (cfg : Cfg) (sub : SubReg) (P : Store) (now : Tick) (execLeaf : Id → Nat → Outcome)
+    (parents : List Id) (base : Store) : Store :=
+  parents.foldl (fun acc p =>
+    if (sub.children p).isEmpty then acc
+    else fun i => if i ∈ sub.children p then (store acc (subPass (subCfgOf cfg sub p) P now now execLeaf).st) i else acc i) base
+
+structure Cycle2Result where
+  invoked : List (Id × Nat)            -- top-level invocations
+  subInvoked : List (Id × Nat)         -- children invoked by the sub-passes, in order
+  P' : Store
+  closed : Bool
+
+/-- `process_changing_cause` with the sub-passes of the invoked parents, for handler reasons with a selection
+    (the other branches of `cycle` involve no handler code). One clock for the whole pass. -/
+def cycle2 (cfg : Cfg) (sub : SubReg) (P : Store) (now : Tick) (execLeaf : Id → Nat → Outcome) : Cycle2Result :=
+  let st0 := withHandlers (fromStorage P cfg.owned) cfg.selected cfg.reason now
+  let st1 := if hasExtras st0 (known cfg) cfg.reason then repurpose st0 cfg.selected cfg.reason else st0
+  let P1 := if hasExtras st1 (known cfg) cfg.reason then purge P st1 cfg.owned (known cfg) else P
+  let r := execOnce cfg st1 now now (execTop cfg sub P now execLeaf)
+  let parents := r.invoked.map (·.1)
+  let P1s := subWrites cfg sub P now execLeaf parents P1
+  let P2 := store P1s r.st
+  let d := done r.st (known cfg)
+  let P3 := if d then purge P2 r.st cfg.owned (known cfg) else P2
+  { invoked := r.invoked,
+    subInvoked := parents.flatMap (fun p =>
+      if (sub.children p).isEmpty then [] else (subPass (subCfgOf cfg sub p) P now now execLeaf).invoked),
+    P' := P3, closed := d }
+
 /-! ### Predicates used in the property statements -/
 
 /-- No stored record of an owned handler carries a purpose other than the current reason
